@@ -63,6 +63,11 @@ def replay(case):
         tab = np.array(cfg['tab'], dtype=int).T          # rows x_1..x_g, y_1..y_g ; one column per transition
         try:
             op = (ulam.ulam_2d if len(grid) == 2 else ulam.ulam_3d)(tab, grid, cfg['sims'])
+            # transition tables as they are stored on disk: narrow unsigned integers (box numbers fit easily)
+            op8 = (ulam.ulam_2d if len(grid) == 2 else ulam.ulam_3d)(np.asarray(tab).astype(np.uint8), grid, cfg['sims'])
+            if metadata_problem(op8) or contract(op8.cores).shape != contract(op.cores).shape or \
+                    np.max(np.abs(contract(op8.cores) - contract(op.cores))) > 1e-12:
+                out.append(('ulam:value:uint8', 'a uint8 transition table gives a different operator than the same table as int64 (grid %r)' % (grid,)))
         except Exception as e:
             return [('ulam:exception:%s' % type(e).__name__, 'ulam raised %r' % (e,))]
         pm = metadata_problem(op)
@@ -81,8 +86,8 @@ def runs(tier):
     q = tier == 'quick'
     base = dict(MaxD=3, Sizes={2, 3}, NSingle={0, 2} if q else {0, 1, 2}, NTwo={1, 3} if q else {1, 2, 3},
                 Seeds={1, 2} if q else {1, 2, 3, 4}, ExhaustiveD2=True,
-                UlamGrids={(2, 2), (2, 3), (3, 2), (2, 2, 2), (3, 2, 2)} if q else
-                {(2, 2), (2, 3), (3, 2), (3, 3), (2, 2, 2), (3, 2, 2), (2, 3, 2), (2, 2, 3)},
+                UlamGrids={(2, 2), (2, 3), (3, 2), (2, 2, 2), (3, 2, 2), (17, 2, 18), (17, 16)} if q else
+                {(2, 2), (2, 3), (3, 2), (3, 3), (2, 2, 2), (3, 2, 2), (2, 3, 2), (2, 2, 3), (17, 2, 18), (17, 16), (19, 3, 17)},
                 UlamN={1, 5, 9} if q else {1, 3, 5, 9, 14})
     out = [dict(name='slim', module='Slim', constants=base, invariants=['ColumnSumsZero', 'OffDiagNonNeg', 'UlamTotal'])]
     # order 4 (two interior cores: pass-through blocks of cyclic chains next to each other)
